@@ -28,7 +28,8 @@ ASSUMPTIONS = ["pytrie longest-prefix contract stub", "pydantic BaseModel stub (
 
 def jobs(tier):
     shapes = [([[1, 1], [0, 0]], False, Q), ([[1, 0], [0, 0]], True, Q),
-              ([[1, 1], [1, 1]], False, T), ([[0, 0]] * 3, False, T), ([[1, 1], [0, 0]], True, T)]
+              ([[1, 1], [1, 1]], False, T), ([[0, 0]] * 3, False, T), ([[1, 1], [0, 0]], True, T),
+              ([[1, 1], [1, 1], [0, 0]], False, T), ([[0, 1], [0, 1]], True, T)]
     items = []
     for shape, sd, tiers in shapes:
         for fn in ALL:
